@@ -27,6 +27,16 @@ structure K (c : Cfg) (x : G2State) : Prop where
 theorem k_init (c : Cfg) : K c (g2init c) :=
   ⟨ginv_init c, by simp [g2init, ginit], by simp [g2init, Ph.joining], by simp [g2init, ginit, init], by simp [g2init]⟩
 
+theorem joinTarget_next {s : State} {ph ph' : Ph} {t : Thr} {b : Bool} (h : joinTarget s ph = some (t, b, ph')) :
+    ph'.joining = true ∧ ph' ≠ .reset := by
+  cases ph <;> simp only [joinTarget] at h
+  case run => split at h <;> simp at h; obtain ⟨_, _, rfl⟩ := h; simp [Ph.joining]
+  case joinS => simp at h; obtain ⟨_, _, rfl⟩ := h; simp [Ph.joining]
+  case joinW k =>
+    split at h <;> simp at h
+    obtain ⟨_, _, rfl⟩ := h; simp [Ph.joining]
+  case reset => simp at h
+
 theorem k_step {a : G2Action} (hk : K c x) (hh : a = .joinGiveUp .reader → x.g.cur.rpc.pastSource = true)
     (h : g2step c x a = some y) : K c y := by
   have hgi := g2_ginv hk.ginv h
@@ -55,6 +65,7 @@ theorem k_step {a : G2Action} (hk : K c x) (hh : a = .joinGiveUp .reader → x.g
     exact ⟨hgi, hk.old, hk.join, hk.reset, fun _ => ⟨hi, hph⟩⟩
   case joinOk t =>
     obtain ⟨ph', hj, hc, rfl⟩ := g2_joinOk h
+    obtain ⟨hj1, hj2⟩ := joinTarget_next hj
     refine ⟨hgi, hk.old, ?_, ?_, ?_⟩
     · intro _
       cases hp : x.ph with
@@ -64,18 +75,77 @@ theorem k_step {a : G2Action} (hk : K c x) (hh : a = .joinGiveUp .reader → x.g
       | joinS => exact hk.join (by simp [hp, Ph.joining])
       | joinW k => exact hk.join (by simp [hp, Ph.joining])
       | reset => simp [joinTarget, hp] at hj
-    · intro e
-      simp only at e
-      subst e
-      cases hp : x.ph <;> simp [joinTarget, hp] at hj
-      · split at hj <;> simp at hj
-      · split at hj <;> simp at hj
-    · intro e
-      have := (hk.rinit e).1
-      have hcb := hk.ginv
-      exact absurd hc (by
-        intro hcl
-        sorry)
-  all_goals sorry
+    · intro e; exact absurd e hj2
+    · intro e; exact ⟨(hk.rinit e).1, hj2⟩
+  case joinGiveUp t =>
+    obtain ⟨ph', hj, hc, rfl⟩ := g2_joinGiveUp h
+    obtain ⟨hj1, hj2⟩ := joinTarget_next hj
+    refine ⟨hgi, hk.old, ?_, ?_, ?_⟩
+    · intro _
+      cases hp : x.ph with
+      | run =>
+        simp [joinTarget, hp, hc] at hj
+        have hst := (hk.ginv.curMp hc).1
+        exact ⟨Or.inr ⟨hst, hh (by rw [hj.1])⟩, hc⟩
+      | joinS => exact hk.join (by simp [hp, Ph.joining])
+      | joinW k => exact hk.join (by simp [hp, Ph.joining])
+      | reset => simp [joinTarget, hp] at hj
+    · intro e; exact absurd e hj2
+    · intro e; exact ⟨(hk.rinit e).1, hj2⟩
+  case ctorEnter =>
+    obtain ⟨k, hp, _, hc, rfl⟩ := g2_ctorEnter h
+    refine ⟨hgi, ?_, by simp [Ph.joining], by simp [init], by simp⟩
+    intro q hq
+    simp at hq
+    rcases hq with rfl | hq
+    · exact (hk.join (by simp [hp, Ph.joining])).1
+    · exact hk.old q hq
+  case ctorLeave =>
+    obtain ⟨hp, rfl⟩ := g2_ctorLeave h
+    refine ⟨hgi, hk.old, by simp [Ph.joining], by simp, ?_⟩
+    intro e
+    exact ⟨(hk.rinit e).1, by simp⟩
+
+theorem k_run : ∀ (tr : List G2Action) {x y : G2State}, K c x → harmless c x tr → g2run c x tr = some y → K c y
+  | [], x, y, hk, _, hr => by simp [g2run] at hr; subst hr; exact hk
+  | a :: tr, x, y, hk, hh, hr => by
+    simp only [g2run] at hr
+    simp only [harmless] at hh
+    cases hs : g2step c x a with
+    | none => simp [hs] at hr
+    | some x1 =>
+      simp only [hs] at hr hh
+      exact k_run tr (k_step hk hh.1 hs) hh.2 hr
+
+/-- no give-up of the reader's join at all is the special case used by `single_driver_partial` -/
+theorem harmless_of_no_giveup : ∀ (tr : List G2Action) (x : G2State), (∀ a ∈ tr, a ≠ .joinGiveUp .reader) → harmless c x tr
+  | [], _, _ => trivial
+  | a :: tr, x, hn => by
+    simp only [harmless]
+    refine ⟨fun e => absurd e (hn a (by simp)), ?_⟩
+    cases g2step c x a with
+    | none => trivial
+    | some x1 => exact harmless_of_no_giveup tr x1 (fun b hb => hn b (by simp [hb]))
+
+theorem silent_not_insrc {s : State} (h : Silent s) : readerInSource s = false := by
+  rcases h with h | ⟨_, h⟩
+  · simp [readerInSource, h]
+  · cases hr : s.rpc <;> simp [hr, RPc.pastSource] at h <;> simp [readerInSource, hr]
+
+theorem k_count (hk : K c x) : driversInSource x ≤ 1 := by
+  have hold : (x.g.old.filter readerInSource).length = 0 := by
+    rw [List.length_eq_zero_iff, List.filter_eq_nil_iff]
+    intro s hs
+    simp [silent_not_insrc (hk.old s hs)]
+  unfold driversInSource readersInSource
+  rw [hold]
+  by_cases hri : x.rinit = true
+  · obtain ⟨h1, h2⟩ := hk.rinit hri
+    simp [readerInSource, h1, h2, hri]
+  · by_cases hp : x.ph = .reset
+    · have h1 := hk.reset hp
+      simp [readerInSource, h1, hp, hri]
+    · simp [hp, hri]
+      split <;> omega
 
 end TDV.PM
